@@ -121,6 +121,10 @@ func (h *NFSProcedureHandler) handleSetattr(body io.Reader, reply *RPCReply, aut
 		if sattr.Size > uint64(math.MaxInt64) {
 			return nfsErrorWithWcc(reply, NFSERR_INVAL), nil
 		}
+		// Truncate follows symbolic links: a link has no size to set
+		if preAttrs.Mode&os.ModeSymlink != 0 {
+			return nfsErrorWithWcc(reply, NFSERR_INVAL), nil
+		}
 		if err := node.Truncate(int64(sattr.Size)); err != nil {
 			return nfsErrorWithWcc(reply, mapError(err)), nil
 		}
